@@ -165,6 +165,17 @@ def class_methods(objs):
                 rt = ty(m)
                 rt = rt[rt.rfind("->") + 2:].strip() if "->" in rt else rt.split("(")[0].strip()
                 out.setdefault(m["name"], []).append((ps, rt, core(body)))
+            elif m.get("kind") == "CXXConstructorDecl" and any(c.get("kind") == "CompoundStmt" for c in m.get("inner", [])) \
+                    and not m.get("isImplicit"):
+                ps = [(c["name"], ty(c)) for c in m["inner"] if c.get("kind") == "ParmVarDecl"]
+                inits = [(c.get("anyInit", {}).get("name"), core(c["inner"][0]) if c.get("inner") else None)
+                         for c in m["inner"] if c.get("kind") == "CXXCtorInitializer"]
+                body = [c for c in m["inner"] if c.get("kind") == "CompoundStmt"][0]
+                out.setdefault("__ctor__", []).append((ps, inits, core(body)))
+            elif m.get("kind") == "FieldDecl":
+                # in-class default member initialiser (size_t m_used_size{0};)
+                ini = [c for c in m.get("inner", []) if "Expr" in c.get("kind", "") or "Literal" in c.get("kind", "")]
+                out.setdefault("__fieldinit__", {})[m["name"]] = core(ini[0]) if ini else None
             elif m.get("kind") == "FunctionTemplateDecl":
                 walk(m)
     for o in objs:
@@ -185,6 +196,7 @@ SCHEMA = {
         fields=[("ll_cap", None, "cap"), ("ll_elems", "m_elements", "vec"), ("ll_index", "m_keyed_elements", "umap"),
                 ("ll_list", "m_lru_list", "list"), ("ll_end", "m_lru_end", "liter"), ("ll_used", "m_used_size", "nat")],
         elem_fields=[("le_keyed", "m_keyed_position", "mit"), ("le_pos", "m_lru_position", "optliter"), ("le_val", "m_value", "optval")],
+        ctor=True, elem_default="{| le_keyed := None; le_pos := None; le_val := None |}",
         methods=["do_access", "do_erase", "do_prune", "do_insert", "do_update", "do_insert_update", "do_find",
                  "insert", "insert_range", "erase", "erase_range", "find", "find_range", "find_range_fill",
                  "empty", "size", "capacity"],
@@ -202,7 +214,11 @@ class Tr:
         self.cls = cls
         self.sc = SCHEMA[cls]
         self.methods = {}
+        self.ctors = methods.get("__ctor__", [])
+        self.fieldinit = methods.get("__fieldinit__", {})
         for name, bodies in methods.items():
+            if name.startswith("__"):
+                continue
             if len(bodies) == 1:
                 self.methods[name] = bodies
             else:
@@ -818,6 +834,102 @@ class Tr:
         prefer declaration order, which does not change when a local is renamed)"""
         return sorted(names)
 
+    # ---- the constructor: member initialisers in order, then the body; produces the initial state record.
+    #      F maps each record field to a Gallina term (None = not set yet).  Rules of the base table (lru family):
+    #        vector member (n)                 -> repeat <default element> n
+    #        std::list<size_t> member (n)      -> n nodes; the formal list identifies a node with the value it
+    #                                             holds, which is only right once std::iota(begin, end, 0) has run
+    #        index member, default constructed -> []
+    #        iterator member default constructed -> not set (singular); must be assigned in the body
+    #        size_t member with default member initialiser {k} -> k
+    #        std::iota(l.begin(), l.end(), 0)  -> the nodes of l are numbered 0..n-1  (seq 0 n)
+    #        it = l.begin()                    -> l_begin l
+    #        index.max_load_factor(f)          -> no effect on the model, but must come BEFORE reserve
+    #        index.reserve(n)                  -> the index may hold n entries without rehashing: cap := n
+    def ctor_init(self, F, member, c, env):
+        coq, kind = self.f_by_cpp.get(member, (None, None))
+        if member == "m_lock":
+            return
+        if coq is None:
+            raise Unsupported("constructor initialises unknown member %s" % member)
+        if kind == "vec" and c["k"] == "ref" and c["n"] in env and env[c["n"]][1] == "nat":
+            F[coq] = "(repeat %s %s)" % (self.sc["elem_default"], env[c["n"]][0])
+        elif kind == "list" and c["k"] == "ref" and c["n"] in env and env[c["n"]][1] == "nat":
+            F[coq] = "(seq 0 %s)" % env[c["n"]][0]
+            self.unnumbered.add(coq)
+        elif kind == "umap" and c["k"] == "construct" and not c["a"]:
+            F[coq] = "[]"
+        elif kind == "liter" and c["k"] == "construct" and not c["a"]:
+            F[coq] = None
+        elif kind == "nat" and c["k"] == "?CXXDefaultInitExpr":
+            d = self.fieldinit.get(member)
+            if d is None or d["k"] != "int":
+                raise Unsupported("default member initialiser of %s" % member)
+            F[coq] = str(d["n"])
+        else:
+            raise Unsupported("member initialiser %s(%s)" % (member, show(c)[:120]))
+
+    def ctor_stmt(self, F, c, env):
+        k = c["k"]
+        if k == "call" and c["n"] == "iota" and len(c["a"]) == 3:
+            b, e, z = c["a"]
+            if b["k"] == "mcall" and b["n"] == "begin" and e["k"] == "mcall" and e["n"] == "end" and \
+                    b["a"][0]["k"] == "field" and e["a"][0] == b["a"][0] and z["k"] == "int" and str(z["n"]) == "0":
+                coq, kind = self.f_by_cpp[b["a"][0]["n"]]
+                if kind == "list" and coq in self.unnumbered:
+                    self.unnumbered.discard(coq)
+                    return
+            raise Unsupported("std::iota other than over a whole list member from 0")
+        if k == "op" and c["n"] == "operator=" and c["a"][0]["k"] == "field":
+            coq, kind = self.f_by_cpp[c["a"][0]["n"]]
+            r = c["a"][1]
+            if kind == "liter" and r["k"] == "mcall" and r["n"] == "begin" and r["a"][0]["k"] == "field":
+                lc, lk = self.f_by_cpp[r["a"][0]["n"]]
+                if lk == "list" and F.get(lc) is not None:
+                    F[coq] = "(l_begin %s)" % F[lc]
+                    return
+            raise Unsupported("constructor assignment %s" % show(c)[:160])
+        if k == "mcall" and c["a"] and c["a"][0]["k"] == "field":
+            coq, kind = self.f_by_cpp[c["a"][0]["n"]]
+            if kind == "umap" and c["n"] == "max_load_factor" and len(c["a"]) == 2:
+                if self.reserved:
+                    raise Unsupported("max_load_factor after reserve: the reserved size no longer bounds rehashing")
+                return
+            if kind == "umap" and c["n"] == "reserve" and len(c["a"]) == 2:
+                b, t, kd = self.E(c["a"][1], ["s"], env)
+                if b or kd != "nat":
+                    raise Unsupported("reserve(%s)" % show(c["a"][1]))
+                F[self.sc["cap"]] = t
+                self.reserved = True
+                return
+        raise Unsupported("constructor statement %s" % show(c)[:160])
+
+    def translate_ctor(self):
+        if len(self.ctors) != 1:
+            raise Unsupported("%d user-provided constructors" % len(self.ctors))
+        ps, inits, body = self.ctors[0]
+        env, params = {}, []
+        for pn, t in ps:
+            if t == "float":
+                env[pn] = ("p_" + pn, "float")      # only ever handed to max_load_factor
+                continue
+            kd = self.akind(t, True)
+            env[pn] = ("p_" + pn, kd)
+            params.append("(p_%s : %s)" % (pn, self.COQTY[kd]))
+        F = {f: None for f, _, _ in self.sc["fields"]}
+        self.unnumbered, self.reserved = set(), False
+        for member, c in inits:
+            self.ctor_init(F, member, c, env)
+        for c in body["a"]:
+            self.ctor_stmt(F, c, env)
+        if self.unnumbered:
+            raise Unsupported("list member(s) %s never numbered by std::iota" % sorted(self.unnumbered))
+        missing = [f for f, v in F.items() if v is None]
+        if missing:
+            raise Unsupported("constructor leaves %s unset" % missing)
+        rec = "; ".join("%s := %s" % (f, F[f]) for f, _, _ in self.sc["fields"])
+        return "Definition g_init %s : %s %s := {| %s |}." % (" ".join(params), self.sc["state"], self.sc["state_args"], rec)
+
     def loop_fuel(self, s):
         """an upper bound on the iterations of any loop of the class, as a Gallina term over the state"""
         f = self.sc.get("fuel")
@@ -907,6 +1019,8 @@ class Tr:
             visit(m)
         for m in order:
             out += [defs[m], ""]
+        if sc.get("ctor"):
+            out += [self.translate_ctor(), ""]
         out.append("End Gen.")
         return "\n".join(out) + "\n"
 
